@@ -44,11 +44,12 @@ def early_order() -> str:
     return "c3" if st and st[0] == "fixed" else "allbases"
 
 
-def cfg_text(source: str, maxn: int, docstates: List[str], invariants: bool = True, late_orders: str = "all") -> str:
+def cfg_text(source: str, maxn: int, docstates: List[str], invariants: bool = True, late_orders: str = "all",
+             late_backs: str = "upto1") -> str:
     inv = "".join(f"INVARIANT {i}\n" for i in INVARIANTS) if invariants else ""
     ds = "{" + ", ".join(json.dumps(d) for d in docstates) + "}"
     return (f"SPECIFICATION Spec\nCONSTANTS MaxN = {maxn}\n          Source = \"{source}\"\n"
-            f"          DocStates = {ds}\n          EarlyOrder = \"{early_order()}\"\n          LateOrders = \"{late_orders}\"\n"
+            f"          DocStates = {ds}\n          EarlyOrder = \"{early_order()}\"\n          LateOrders = \"{late_orders}\"\n          LateBacks = \"{late_backs}\"\n"
             f"CONSTRAINT Emit\n{inv}")
 
 
@@ -130,12 +131,12 @@ def render_case(h: int, rec: Dict[str, Any]) -> Dict[str, Any]:
         # (acyclic) hierarchy.
         mods = []
         where = {}
-        bc, bx = rec["lay"]["back"]
         for c in rec["lay"]["order"]:
             mn = f"l{h}_m{c}"
             lines = []
-            if bc == c:
-                lines += ["from typing import TYPE_CHECKING", "if TYPE_CHECKING:", f"    import l{h}_m{bx}"]
+            back = [x for (bc, x) in rec["lay"]["back"] if bc == c]
+            if back:
+                lines += ["from typing import TYPE_CHECKING", "if TYPE_CHECKING:"] + [f"    import l{h}_m{x}" for x in back]
             lines += [f"import l{h}_m{b}" for b in sorted(set(bases[c - 1]))]
             bs = [f"l{h}_m{b}.{cname(b)}" + ("[int]" if subscripted(h, c, j) else "") for j, b in enumerate(bases[c - 1])]
             where[c] = (mn, cname(c), len(lines) + 1)
@@ -660,8 +661,9 @@ def cpython_import_check(ctx: Ctx, recs: List[Dict[str, Any]], first_h: int) -> 
 def tlc_cases(ctx: Ctx, source: str, maxn: int, docstates: List[str], out: Dict[str, Any], **kw: Any) -> None:
     key = kw.pop("key", source)
     try:
-        r = ctx.tlc("MRO", cfg_text(source, maxn, docstates, invariants=True, late_orders=kw.pop("late_orders", "all")),
-                    workers=kw.pop("workers", 6), check=True, timeout=1500, cfg_name=f"MRO_{key}.cfg", **kw)
+        r = ctx.tlc("MRO", cfg_text(source, maxn, docstates, invariants=True, late_orders=kw.pop("late_orders", "all"),
+                                       late_backs=kw.pop("late_backs", "upto1")),
+                    workers=kw.pop("workers", 5), check=True, timeout=1500, cfg_name=f"MRO_{key}.cfg", **kw)
         out[key] = r
     except BaseException as e:            # re-raised in the main thread
         out[key] = e
@@ -676,8 +678,11 @@ def run(ctx: Ctx) -> int:
     results: Dict[str, Any] = {}
     threads = [threading.Thread(target=tlc_cases, args=(ctx, "enum", 5, docstates, results), kwargs={"coverage": ctx.quick}),
                threading.Thread(target=tlc_cases, args=(ctx, "members", 4, docstates, results)),
-               threading.Thread(target=tlc_cases, args=(ctx, "graph", 3, docstates, results), kwargs={"workers": 2}),
-               threading.Thread(target=tlc_cases, args=(ctx, "late", 3, docstates, results), kwargs={"workers": 3})]
+               threading.Thread(target=tlc_cases, args=(ctx, "graph", 3, docstates, results), kwargs={"workers": 1}),
+               threading.Thread(target=tlc_cases, args=(ctx, "late", 3, docstates, results), kwargs={"workers": 2}),
+               # two TYPE_CHECKING imports: a subclass can be created (and post-processed) before its base
+               threading.Thread(target=tlc_cases, args=(ctx, "late", 3, ["absent", "doc"], results),
+                                kwargs={"workers": 2, "key": "late2", "late_backs": "two"})]
     if not ctx.quick:
         threads.append(threading.Thread(target=tlc_cases, args=(ctx, "late", 4, ["absent", "doc"], results),
                                         kwargs={"workers": 4, "key": "late4", "late_orders": "two"}))
@@ -698,6 +703,10 @@ def run(ctx: Ctx) -> int:
     late = sorted(results["late"].printed, key=lambda r: json.dumps([r["bases"], r["member"], r["lay"]]))
     if len(late) != 10 * len(docstates) ** 3 * 6 * 7:
         raise MachineryError(f"TLC emitted {len(late)} late cases, expected {10 * len(docstates) ** 3 * 6 * 7}")
+    late2 = sorted(results["late2"].printed, key=lambda r: json.dumps([r["bases"], r["member"], r["lay"]]))
+    if len(late2) != 10 * 8 * 6 * 18:
+        raise MachineryError(f"TLC emitted {len(late2)} late (two imports) cases, expected {10 * 8 * 6 * 18}")
+    late += late2
     if "late4" in results:
         late4 = sorted(results["late4"].printed, key=lambda r: json.dumps([r["bases"], r["member"], r["lay"]]))
         if len(late4) != 160 * 16 * 2 * 13:
